@@ -482,7 +482,7 @@ def design_check(ctx):
     extra = {"LO": ["DeliverExc"], "LR": ["DeliverExc", "MCResume"], "IN": ["DeliverExc", "MCResume"], "NS": ["DeliverClose"]}
     for kind in ("LO", "LR", "IN", "NS"):
         ctx.coverage_actions = {k: v for k, v in ctx.coverage_actions.items() if not k.startswith("FramingMC.")}
-        r = ctx.mc("FramingMC", "FramingMC_%s%s.cfg" % (kind, ctx.pick("", ".thorough")), label=kind)
+        r = ctx.mc("FramingMC", "FramingMC_%s%s.cfg" % (kind, ctx.pick("", ".thorough")), label=kind, timeout=4 * 3600)
         if r.ok:
             ctx.require_actions("FramingMC", acts + extra[kind])
             continue
